@@ -11,9 +11,18 @@
 (* return; nothing else (panic, hang, allocation out of proportion) is a   *)
 (* behaviour.                                                              *)
 (*                                                                         *)
-(* A program is [side, header, ctx, stem, ext]: the strings enumerated are *)
-(* stem \o x for every class string x with Len(x) <= ext, each class       *)
-(* concretised with its representatives.                                   *)
+(* A program of kind "enum" is [side, header, ctx, stem, ext]: the strings *)
+(* enumerated are stem \o x for every class string x with Len(x) <= ext,   *)
+(* each class concretised with its representatives.                        *)
+(*                                                                         *)
+(* Bounded enumeration over the class alphabet only reaches short values.  *)
+(* A program of kind "long" is [side, header, ctx, shape, lens]: one       *)
+(* structured value per length in lens and per variant of the shape - long *)
+(* runs of tokens, separators, quotes, backslashes, parameters, extension  *)
+(* elements, base64 text of every padding with and without one invalid     *)
+(* character, origin URLs with long hosts / ports / escapes - in the same  *)
+(* grammatical contexts.  The judgement is the same: every presentation    *)
+(* yields a normal result or an error return.                              *)
 (***************************************************************************)
 EXTENDS Integers, Sequences, FiniteSets, TLC
 
@@ -38,6 +47,20 @@ CtxsOf(h) ==
     [] h \in {"Sec-Websocket-Key", "Sec-Websocket-Version", "Sec-Websocket-Accept"} -> {"raw", "lead"}
     [] OTHER -> {"raw", "elem", "lead"}
 
+(* Shapes of long values.  "b64": base64 text of the given length with    *)
+(* 0 / 1 / 2 trailing "=" and an invalid character nowhere / first /       *)
+(* in the middle / last (12 variants per length); every other shape has    *)
+(* one value per length.                                                   *)
+ListShapes == {"tokens", "commas", "longtoken", "quotes", "bslashes", "openquote", "openquote_esc", "quoted", "params",
+               "qparams", "exts", "spaces", "obs", "semis", "eqs", "digits"}
+UrlShapes  == {"urlhost", "urlport", "urlv6", "urlpct", "urlbadpct", "urluser"}
+ShapesOf(h) ==
+  CASE h \in {"Sec-Websocket-Key", "Sec-Websocket-Accept"} -> {"b64", "longtoken", "spaces", "obs", "commas"}
+    [] h = "Origin" -> UrlShapes \cup {"longtoken", "spaces", "obs", "commas"}
+    [] OTHER -> ListShapes
+NVariants(shape) == IF shape = "b64" THEN 12 ELSE 1
+LongCount(p) == Len(p.lens) * NVariants(p.shape)
+
 (* number of class strings of length <= n *)
 RECURSIVE Pow(_, _)
 Pow(b, n) == IF n = 0 THEN 1 ELSE b * Pow(b, n - 1)
@@ -48,5 +71,6 @@ UpToCount(n) == IF n = 0 THEN 1 ELSE Pow(NClasses, n) + UpToCount(n - 1)
 (* ended with a normal result or an error return.                          *)
 BatchAllowed(p, b) ==
   /\ b.n = b.normal + b.errors
-  /\ b.n >= UpToCount(p.ext)          \* at least one concretisation per class string
+  /\ b.n >= (IF p.kind = "long" THEN LongCount(p)     \* one value per length and variant
+             ELSE UpToCount(p.ext))                    \* at least one concretisation per class string
 =============================================================================
